@@ -330,10 +330,10 @@ int main(void) {
 		(void)save;
 		printf("]\n");
 		fclose(g_out); g_out = NULL;
+		ini_destroy(ini); ini = NULL;     /* before the answer goes out: a corrupted heap is charged to THIS case */
 		fwrite(obuf, 1, olen, stdout);
 		fflush(stdout);
 		free(obuf);
-		ini_destroy(ini); ini = NULL;
 		alarm(0);
 	}
 	return 0;
